@@ -3,7 +3,7 @@
 J=${1:-6}
 BIN=$(mktemp /tmp/lvsweep-XXXXXX); cp /verif/bin/lvcheck $BIN; chmod +x $BIN
 KF=$(mktemp /tmp/kfsweep-XXXXXX); cp /verif/known_findings.json $KF
-base=$($BIN -prop all -repo /repo -verif $(mktemp -d /tmp/sw1-sv-XXXXXX) 2>&1 | grep -c "^VIOLATION")
+SVB=$(mktemp -d /tmp/sw1-sv-XXXXXX); cp $KF $SVB/known_findings.json; base=$($BIN -prop all -repo /repo -verif $SVB 2>&1 | grep -c "^VIOLATION")
 ( echo "# unchanged tree: $base violation lines (must be 0)"; ls /verif/seeded | grep -E "^C[0-9]+-m[0-9]+$" | xargs -P $J -n 1 -I{} /verif/tools/sweep_one.sh seed {} $BIN $KF | sort -V ) > /verif/seeded/SWEEP.tsv.new && mv /verif/seeded/SWEEP.tsv.new /verif/seeded/SWEEP.tsv
 ls /verif/refactors | grep -E "^R[0-9]+-r[0-9]+$" | xargs -P $J -n 1 -I{} /verif/tools/sweep_one.sh ref {} $BIN $KF | sort -V > /verif/refactors/SWEEP.tsv.new && mv /verif/refactors/SWEEP.tsv.new /verif/refactors/SWEEP.tsv
 rm -f $BIN $KF; rm -rf /tmp/sw1-sv-*
